@@ -1,5 +1,6 @@
 import Brax.Model.Dual
 import Brax.Lemmas.Norm
+import Brax.Lemmas.C03Sound
 import Mathlib.Analysis.SpecialFunctions.Trigonometric.InverseDeriv
 /-!
 # C03 — simulation is differentiable: gradients are finite and correct
@@ -179,5 +180,149 @@ example : allClose0 ([0, 0, 0] : List ℝ) = true := by
   rw [allClose0_iff]; intro x hx; simp at hx; subst hx; norm_num
 example : Dual.safeClip (1 : ℝ) = 1 - 1e-7 := by
   unfold Dual.safeClip; rw [clip_eq]; norm_num
+
+end Brax.C03
+
+/-!
+# C03 (deepening) — forward-mode AD over `Dual ℝ` is SOUND
+
+Proved in `Brax/Lemmas/C03Sound.lean`, restated here.  `Sound d t` means
+`HasDerivAt (fun u => (d u).re) (d t).du t`: the tangent part of the dual-valued curve `d` at `t`
+is the derivative of its value part.
+
+General statement (NOT proved in this generality — it is a parametricity theorem over all models):
+  for every model function `f` written over the raw operator classes, and every sound input curve,
+  `u ↦ f_{Dual ℝ}(x u)` is sound wherever every `sqrt`/`/`/`atan2`/`acos`/`asin` argument is in
+  the domain of differentiability and every comparison is decided by a strict inequality.
+Proved: the closure lemmas for every operator of `Dual`, and their composition on the concrete
+model functions below, up to one and two links of `Kin.forward` and the tree scan of
+`Kin.forward` for every forest.
+-/
+namespace Brax.C03
+open Brax Filter Topology
+
+/-- **closure of soundness under every operator instance of `Model/Dual.lean`**, each under the
+side condition the real derivative needs -/
+theorem dual_closure (a b : ℝ → Dual ℝ) (t : ℝ) (ha : Sound a t) (hb : Sound b t) :
+    (∀ c : ℝ, Sound (fun _ => ⟨c, 0⟩) t) ∧ Sound (fun u => ⟨u, 1⟩) t
+    ∧ Sound (fun u => a u + b u) t ∧ Sound (fun u => a u - b u) t ∧ Sound (fun u => a u * b u) t
+    ∧ Sound (fun u => -a u) t
+    ∧ ((b t).re ≠ 0 → Sound (fun u => a u / b u) t)
+    ∧ (0 < (a t).re → Sound (fun u => HasSqrt.sqrt (a u)) t)
+    ∧ Sound (fun u => HasTrig.sin (a u)) t ∧ Sound (fun u => HasTrig.cos (a u)) t
+    ∧ ((0 < (b t).re ∨ (a t).re ≠ 0) → Sound (fun u => HasTrig.atan2 (a u) (b u)) t)
+    ∧ (|(a t).re| ≤ 1 - 1e-7 → Sound (fun u => HasTrig.acos (a u)) t)
+    ∧ (|(a t).re| ≤ 1 - 1e-7 → Sound (fun u => HasTrig.asin (a u)) t)
+    ∧ Sound (fun u => HasExp.exp (a u)) t
+    ∧ ((a t).re ≠ 0 → Sound (fun u => HasExp.log (a u)) t)
+    ∧ Sound (fun u => HasExp.tanh (a u)) t :=
+  ⟨fun c => Sound.const c, Sound.id, ha.add hb, ha.sub hb, ha.mul hb, ha.neg,
+   fun h => ha.div hb h, fun h => ha.sqrt h, ha.sin, ha.cos, fun h => Sound.atan2 ha hb h,
+   fun h => ha.acos h, fun h => ha.asin h, ha.exp, fun h => ha.log h, ha.tanh⟩
+
+/-- **`jp.where(x < y, a, b)` / `x ≤ y`** is sound when both the compared values are sound and the
+decision is made by a strict inequality at `t` (an open condition); only the taken branch needs to
+be sound -/
+theorem dual_closure_ite (x y a b : ℝ → Dual ℝ) (t : ℝ) (hx : Sound x t) (hy : Sound y t) :
+    ((x t).re < (y t).re → Sound a t → Sound (fun u => if x u < y u then a u else b u) t)
+    ∧ ((y t).re < (x t).re → Sound b t → Sound (fun u => if x u < y u then a u else b u) t)
+    ∧ ((x t).re < (y t).re → Sound a t → Sound (fun u => if x u ≤ y u then a u else b u) t)
+    ∧ ((y t).re < (x t).re → Sound b t → Sound (fun u => if x u ≤ y u then a u else b u) t) :=
+  ⟨fun h ha => Sound.ite_lt_true hx hy ha h, fun h hb => Sound.ite_lt_false hx hy hb h,
+   fun h ha => Sound.ite_le_true hx hy ha h, fun h hb => Sound.ite_le_false hx hy hb h⟩
+
+/-- any locally constant decision (e.g. the `Bool`s `allClose0`, `eqZero` of the models) -/
+theorem dual_closure_ite_eventually (a b : ℝ → Dual ℝ) (t : ℝ) (c : ℝ → Prop) [DecidablePred c] :
+    ((∀ᶠ u in 𝓝 t, c u) → Sound a t → Sound (fun u => if c u then a u else b u) t)
+    ∧ ((∀ᶠ u in 𝓝 t, ¬ c u) → Sound b t → Sound (fun u => if c u then a u else b u) t) :=
+  ⟨fun h ha => Sound.ite_of_eventually_true ha h, fun h hb => Sound.ite_of_eventually_false hb h⟩
+
+/-- `Gen.quatMul`, `Gen.rotate` (generated from the source; polynomial): for all inputs the tangent
+of the dual-number run is the derivative of the real run -/
+theorem gen_quatMul_rotate_tangent_is_derivative (p q : ℝ → Q4 (Dual ℝ)) (v : ℝ → V3 (Dual ℝ))
+    (t : ℝ) (hp : SoundQ4 p t) (hq : SoundQ4 q t) (hv : SoundV3 v t) :
+    DerivQ4 (fun u => Gen.quatMul (reQ4 (p u)) (reQ4 (q u))) (duQ4 (Gen.quatMul (p t) (q t))) t
+    ∧ DerivV3 (fun u => Gen.rotate (reV3 (v u)) (reQ4 (q u))) (duV3 (Gen.rotate (v t) (q t))) t :=
+  ⟨gen_quatMul_deriv hp hq, gen_rotate_deriv hv hq⟩
+
+/-- `math.normalize` under its guard: value part = real run for every input; tangent = derivative
+whenever some component has `|xᵢ| > 1e-8` at `t` -/
+theorem normalize_tangent_is_derivative (q : ℝ → Q4 (Dual ℝ)) (v : ℝ → V3 (Dual ℝ)) (t : ℝ)
+    (hq : SoundQ4 q t) (hv : SoundV3 v t)
+    (hgq : allClose0 [(q t).w.re, (q t).x.re, (q t).y.re, (q t).z.re] = false)
+    (hgv : allClose0 [(v t).x.re, (v t).y.re, (v t).z.re] = false) :
+    DerivQ4 (fun u => normalize4 (reQ4 (q u))) (duQ4 (normalize4 (q t))) t
+    ∧ DerivV3 (fun u => normalize3 (reV3 (v u))) (duV3 (normalize3 (v t))) t := by
+  have h1 := (SoundQ4.normalize4 hq hgq).deriv
+  have h2 := (SoundV3.normalize3 hv hgv).deriv
+  simp only [reQ4_normalize4] at h1
+  simp only [reV3_normalize3] at h2
+  exact ⟨h1, h2⟩
+
+/-- **`jcalc` of one hinge dof: for every `q`, `qd` the dual-number tangent is the derivative of
+the model w.r.t. `q`** (unit axis; the general guard form is `jcalcDof_tangent_is_derivative`) -/
+theorem jcalc_hinge_tangent_is_derivative (d : DofP ℝ) (q qd : ℝ)
+    (ha : V3.dot d.motion.ang d.motion.ang = 1) :
+    DerivTf (fun u => (Kin.jcalcDof d u qd).1) (duTf (Kin.jcalcDof (cDof d) (var q) (cR qd)).1) q
+    ∧ DerivMotion (fun u => (Kin.jcalcDof d u qd).2)
+        (duMotion (Kin.jcalcDof (cDof d) (var q) (cR qd)).2) q :=
+  jcalcDof_hinge_tangent_is_derivative d q qd ha
+
+/-- **one link of `kinematics.forward`** (one-dof root; guards explicit) -/
+theorem forward_one_link_tangent_is_derivative (s : Sys ℝ) (lk : LinkP ℝ) (d : DofP ℝ) (q qd : ℝ)
+    (ht : s.types = [.one]) (hp : s.parents = [-1]) (hl : s.links = [lk]) (hd : s.dofs = [d])
+    (hg1 : let r := quatRotAxis d.motion.ang q; allClose0 [r.w, r.x, r.y, r.z] = false)
+    (hg2 : let r := (link1 none lk d q qd).1.rot; allClose0 [r.w, r.x, r.y, r.z] = false) :
+    ∃ X : Tf (Dual ℝ) × Motion (Dual ℝ), ∃ x : ℝ → Tf ℝ × Motion ℝ,
+      Kin.forward (cSys s) [var q] [cR qd] = [X] ∧ (∀ u, Kin.forward s [u] [qd] = [x u])
+      ∧ reTM X = x q ∧ DerivTM x (duTM X) q :=
+  forward_single_tangent_is_derivative s lk d q qd ht hp hl hd hg1 hg2
+
+/-- **one hinge link, unit link rotation: no side condition** -/
+theorem forward_one_hinge_tangent_is_derivative (s : Sys ℝ) (lk : LinkP ℝ) (d : DofP ℝ) (q qd : ℝ)
+    (ht : s.types = [.one]) (hp : s.parents = [-1]) (hl : s.links = [lk]) (hd : s.dofs = [d])
+    (ha : V3.dot d.motion.ang d.motion.ang = 1) (hr : lk.tf.rot.IsUnit) :
+    ∃ X : Tf (Dual ℝ) × Motion (Dual ℝ), ∃ x : ℝ → Tf ℝ × Motion ℝ,
+      Kin.forward (cSys s) [var q] [cR qd] = [X] ∧ (∀ u, Kin.forward s [u] [qd] = [x u])
+      ∧ reTM X = x q ∧ DerivTM x (duTM X) q :=
+  forward_hinge_tangent_is_derivative s lk d q qd ht hp hl hd ha hr
+
+/-- **two hinges in a chain, derivative w.r.t. the root angle (moves both links)** -/
+theorem forward_two_hinges_tangent_is_derivative (s : Sys ℝ) (l0 l1 : LinkP ℝ) (d0 d1 : DofP ℝ)
+    (q0 q1 qd0 qd1 : ℝ)
+    (ht : s.types = [.one, .one]) (hp : s.parents = [-1, 0]) (hl : s.links = [l0, l1])
+    (hd : s.dofs = [d0, d1])
+    (ha0 : V3.dot d0.motion.ang d0.motion.ang = 1) (ha1 : V3.dot d1.motion.ang d1.motion.ang = 1)
+    (hr0 : l0.tf.rot.IsUnit) (hr1 : l1.tf.rot.IsUnit) :
+    ∃ X0 X1 : Tf (Dual ℝ) × Motion (Dual ℝ), ∃ x0 x1 : ℝ → Tf ℝ × Motion ℝ,
+      Kin.forward (cSys s) [var q0, cR q1] [cR qd0, cR qd1] = [X0, X1]
+      ∧ (∀ u, Kin.forward s [u, q1] [qd0, qd1] = [x0 u, x1 u])
+      ∧ DerivTM x0 (duTM X0) q0 ∧ DerivTM x1 (duTM X1) q0 :=
+  forward_chain2_hinge_tangent_is_derivative s l0 l1 d0 d1 q0 q1 qd0 qd1 ht hp hl hd ha0 ha1 hr0 hr1
+
+/-- **every forest**: `kinematics.forward` run at `Dual ℝ` yields sound curves whenever the
+per-link joint data (`jointOf` = `jcalc` + placement) are sound curves and the final `normalize`s
+are off their `allclose` ball -/
+theorem forward_sound_every_forest (s : Sys (Dual ℝ)) (q qd : ℝ → List (Dual ℝ)) (t : ℝ)
+    (args : List (ℝ → Tf (Dual ℝ) × Motion (Dual ℝ)))
+    (hjj : ∀ u, (s.links.zip (Kin.linkSlices s.types (q u) (qd u) s.dofs)).map jointOf
+      = args.map (· u))
+    (hs : ∀ a ∈ args, SoundTM a t)
+    (hg : ∀ r ∈ Kin.scanFwd worldFn s.parents args,
+      let p := reQ4 (r t).1.rot; allClose0 [p.w, p.x, p.y, p.z] = false) :
+    ∃ res : List (ℝ → Tf (Dual ℝ) × Motion (Dual ℝ)),
+      (∀ u, Kin.forward s (q u) (qd u) = res.map (· u)) ∧ ∀ r ∈ res, SoundTM r t :=
+  forward_sound_of_joints s q qd args hjj hs hg
+
+/-- non-vacuity: `exSys` (one z-axis hinge, identity link transform) satisfies every hypothesis of
+`forward_one_hinge_tangent_is_derivative`; so the conclusion holds for it at every `q`, `qd` -/
+example (q qd : ℝ) : ∃ X : Tf (Dual ℝ) × Motion (Dual ℝ), ∃ x : ℝ → Tf ℝ × Motion ℝ,
+    Kin.forward (cSys exSys) [var q] [cR qd] = [X] ∧ (∀ u, Kin.forward exSys [u] [qd] = [x u])
+    ∧ reTM X = x q ∧ DerivTM x (duTM X) q :=
+  forward_one_hinge_tangent_is_derivative exSys exLink exDof q qd rfl rfl rfl rfl
+    (by norm_num [exDof, V3.dot]) Q4.isUnit_one
+/-- non-vacuity of the closure hypotheses: the seed and constants are sound -/
+example (t : ℝ) : Sound (fun u => (⟨u, 1⟩ : Dual ℝ) * ⟨u, 1⟩ + ⟨3, 0⟩) t :=
+  (Sound.id.mul Sound.id).add (Sound.const 3)
 
 end Brax.C03
